@@ -49,6 +49,12 @@ NInf  == FSym("ninf")
 NZero == FSym("nzero")
 BigI(d) == [t |-> "bigint", v |-> d]
 
+\* the empty map payload.  Map payloads are always built as functions
+\* (:> and @@, or [k \in S |-> ...]), never with the record constructor: TLC
+\* refuses to compare a non-empty RECORD with the empty tuple, which is what
+\* an empty function becomes once it is part of a state.
+EmptyFn == [k \in {} |-> Null]
+
 IsNumD(v) == v.t \in {"int", "float", "fsym", "bigint"}
 
 \* Truthiness by kind (language definition).
@@ -221,7 +227,7 @@ Key(f, o) == IF o.lc /\ "struct_field_uppercase" \notin Dev THEN LowerFirst(f.na
 \* what the custom marshalers of the harness return (written like the
 \* pinned testIDURLMarshaler: keys chosen by the type, not by lowerCamel)
 MarshalResult(m) ==
-  CASE m.ty = "idurl"  -> M([id |-> I(m.a.id), url |-> S(m.a.url)])
+  CASE m.ty = "idurl"  -> M(("id" :> I(m.a.id)) @@ ("url" :> S(m.a.url)))
     [] m.ty = "mint"   -> S("int:" \o ToString(m.a.n))      \* marshaler on a non-struct type
     [] m.ty = "mnull"  -> Null
     [] m.ty = "mlist"  -> L(<<I(m.a.n), S("x")>>)
@@ -249,7 +255,7 @@ Convert(g, o, rd) ==
     [] g.g = "time" -> IF o.tf = "empty" THEN IsoTime(g.v) ELSE S(TimeText(g.v, o.tf))
     [] g.g \in {"slice", "array"} -> L([i \in 1..Len(g.v) |-> Convert(g.v[i], o, rd)])
     [] g.g = "map" ->
-         IF g.nil THEN (IF rd.nilmap = "null" THEN Null ELSE M(<<>>))
+         IF g.nil THEN (IF rd.nilmap = "null" THEN Null ELSE M(EmptyFn))
          ELSE M([k \in DOMAIN g.v |-> Convert(g.v[k], o, rd)])
     [] g.g = "struct" -> M(StructMap(g.v, o, rd))
     [] g.g \in {"ptr", "iface"} ->
@@ -420,7 +426,7 @@ MarshalerLeaves == {GMarshaler("idurl", [id |-> 1, url |-> "u"]), GMarshaler("id
                     GMarshaler("mlist", [n |-> 2])}
 
 SoyLeafValues == {Undef, Null, B(TRUE), B(FALSE), I(0), I(5), F(0, 0), F(5, 1), NaN, S(""), S("x"),
-                  L(<<>>), L(<<I(1)>>), M(<<>>), M([a |-> Null]), M([a |-> L(<<F(5, 1)>>)])}
+                  L(<<>>), L(<<I(1)>>), M(EmptyFn), M("a" :> Null), M("a" :> L(<<F(5, 1)>>))}
 
 Leaves == {GNil, GBool(TRUE), GBool(FALSE)} \cup IntLeaves \cup FloatLeaves \cup StrLeaves
           \cup {GTime(id) : id \in TimeIds} \cup MarshalerLeaves \cup {GValue(v) : v \in SoyLeafValues}
@@ -431,7 +437,7 @@ R0(size) ==
    GStr(""), GTime("jan1"), GValue(L(<<I(1)>>))}
   \cup (IF size >= 2 THEN {GBool(TRUE), GInt("int64", 0), GBigInt("int64", "-9223372036854775808"),
                             GFloat("float64", 0, 0), GStr("a"), GMarshaler("idurl", [id |-> 1, url |-> "u"]),
-                            GValue(Undef), GValue(M([a |-> Null]))}
+                            GValue(Undef), GValue(M("a" :> Null))}
         ELSE {})
 
 NilTypes == {"int", "bool", "string", "float64", "time", "struct:AInt", "slice:int", "map:string",
